@@ -33,8 +33,16 @@ def plan(tier):
 
     pl.units.append(U("I.read_response", "contracts.reader", "h_read_response", (False,), setup=("contracts.reader", "setup_read_response")))
 
+    from contracts import replies
+    for st in ("OK", "NO"):
+        for code in replies.CODES:
+            for text in replies.TEXTS:
+                pl.units.append(U("D.reply.%s.%s.%s" % (st, code, text), "contracts.replies", "h_status_reply", (st, code, text),
+                                  setup=("contracts.reader", "setup_summaries"), native_ok=True))
+
     def lf(u, label):
-        return label in ("W3.everything-sent-before-the-single-read", "W3.one-sendall-per-line", "S3.exactly-one-command") \
+        return label in ("W3.everything-sent-before-the-single-read", "W3.one-sendall-per-line", "S3.exactly-one-command",
+                         "S4.reader-stops-exactly-at-the-end-of-the-reply") \
             or label.startswith("R3.") or ".loop0." in label
 
     pl.label_filter = lf
@@ -49,7 +57,9 @@ def plan(tier):
         "Deductive: every script operation issues exactly one __send_command, __send_command writes one command and "
         "then performs exactly one response read, and that read (__read_response over the verified readers' contracts) "
         "stops exactly at the status line, after reading every announced literal in full (so requests and replies are paired one to one as long as each read "
-        "consumes exactly one reply). Bounded (labelled bounded): that each read stops at the end of its reply, over the "
+        "consumes exactly one reply); D -- on 40 OK/NO reply shapes with symbolic atoms and texts, followed by arbitrary later "
+        "bytes, the real reader (loops summarised by their C05 contracts) leaves exactly the later bytes unread whenever it "
+        "returns (the OK-with-literal-text shapes fail: listed finding). Bounded (labelled bounded): that each read stops at the end of its reply, over the "
         "status-reply pool with a content-returning sentinel; and seeded random sessions of 6 operations against the "
         "executable reference server with recv limits 1..4096, comparing the client's report with the server's store after "
         "every step and logging any server-side protocol violation.")
